@@ -29,6 +29,16 @@ pub enum Op {
     Zeros { n: usize },
     Align,
     Bytes { data: Vec<u8> },
+    /// (in-memory sinks only) keep a `clone()` of the sink aside
+    Snapshot,
+    /// (in-memory sinks only) `sink.clone_from(&snapshot)`: the sink is again what it was at the snapshot
+    Restore,
+    /// (in-memory sinks only) continue on `sink.clone()`
+    CloneSelf,
+    /// (in-memory sinks only) `clear()`: the empty bit string
+    Clear,
+    /// (in-memory sinks only) `reserve(n)`: no visible change
+    Reserve { n: usize },
 }
 
 fn mask(t: u8) -> u64 {
@@ -55,6 +65,8 @@ pub fn apply_model(m: &mut BitModel, op: &Op) {
                 m.push_msbs(u64::from(*b), 8, 8);
             }
         }
+        // life-cycle operations of the in-memory sinks are interpreted by `run_seq`
+        Op::Snapshot | Op::Restore | Op::CloneSelf | Op::Clear | Op::Reserve { .. } => {}
     }
 }
 
@@ -87,11 +99,12 @@ pub fn apply_sink<S: BitSink>(s: &mut S, op: &Op) -> Result<(), S::Error> {
         Op::Zeros { n } => s.write_zeros(*n),
         Op::Align => s.align_to_byte().map(|_| ()),
         Op::Bytes { data } => s.write_bytes_aligned(data).map(|_| ()),
+        Op::Snapshot | Op::Restore | Op::CloneSelf | Op::Clear | Op::Reserve { .. } => Ok(()),
     }
 }
 
 /// What the harness reads from an in-memory sink (public API only).
-pub trait Mem: BitSink<Error = Infallible> {
+pub trait Mem: BitSink<Error = Infallible> + Clone {
     const ELEM_BITS: usize;
     const NAME: &'static str;
     fn fresh() -> Self;
@@ -100,6 +113,10 @@ pub trait Mem: BitSink<Error = Infallible> {
     fn raw(&self) -> Vec<u8>;
     fn export(&self, nbytes: usize) -> Vec<u8>;
     fn bitstring(&self) -> String;
+    fn clear_all(&mut self);
+    fn reserve_bits(&mut self, n: usize);
+    /// `into_inner()` as big-endian bytes
+    fn inner(self) -> Vec<u8>;
 }
 
 impl Mem for MemSink<u8> {
@@ -122,6 +139,15 @@ impl Mem for MemSink<u8> {
     fn bitstring(&self) -> String {
         self.to_bitstring()
     }
+    fn clear_all(&mut self) {
+        self.clear();
+    }
+    fn reserve_bits(&mut self, n: usize) {
+        self.reserve(n);
+    }
+    fn inner(self) -> Vec<u8> {
+        self.into_inner()
+    }
 }
 
 impl Mem for MemSink<u64> {
@@ -143,6 +169,15 @@ impl Mem for MemSink<u64> {
     }
     fn bitstring(&self) -> String {
         self.to_bitstring()
+    }
+    fn clear_all(&mut self) {
+        self.clear();
+    }
+    fn reserve_bits(&mut self, n: usize) {
+        self.reserve(n);
+    }
+    fn inner(self) -> Vec<u8> {
+        self.into_inner().iter().flat_map(|x| x.to_be_bytes()).collect()
     }
 }
 
@@ -216,12 +251,42 @@ fn run_seq<S: Mem>(ops: &[Op], seam_ops: &mut u64) -> Option<(String, String, St
     let r = pan::catch(|| {
         let mut s = S::fresh();
         let mut m = BitModel::default();
+        let mut aside: Option<(S, BitModel)> = None;
         for (i, op) in ops.iter().enumerate() {
-            let _ = apply_sink(&mut s, op);
-            apply_model(&mut m, op);
+            match op {
+                Op::Snapshot => aside = Some((s.clone(), m.clone())),
+                Op::Restore => {
+                    if let Some((a, am)) = &aside {
+                        s.clone_from(a);
+                        m = am.clone();
+                    }
+                }
+                Op::CloneSelf => s = s.clone(),
+                Op::Clear => {
+                    s.clear_all();
+                    m = BitModel::default();
+                }
+                Op::Reserve { n } => s.reserve_bits(*n),
+                _ => {
+                    let _ = apply_sink(&mut s, op);
+                    apply_model(&mut m, op);
+                }
+            }
             if let Some((class, detail)) = compare(&s, &m) {
                 return Some((class, format!("after op {i} ({op:?}) on {}: {detail}", S::NAME), i));
             }
+            // a snapshot is a sink like any other: it keeps what it held when it was taken
+            if let Some((a, am)) = &aside {
+                if let Some((class, detail)) = compare(a, am) {
+                    return Some((class, format!("the clone taken earlier, looked at after op {i} ({op:?}) on {}: {detail}", S::NAME), i));
+                }
+            }
+        }
+        // "identical byte export": what `into_inner` hands out is what `as_slice` showed
+        let shown = s.raw();
+        let handed = s.inner();
+        if shown != handed {
+            return Some(("export_mismatch", format!("into_inner() of {} gives {} bytes {:02x?}, as_slice() showed {} bytes {:02x?}", S::NAME, handed.len(), &handed[..handed.len().min(24)], shown.len(), &shown[..shown.len().min(24)]), ops.len()));
         }
         None
     });
@@ -577,7 +642,22 @@ pub fn run(ctx: &crate::RunCtx) -> (Summary, Vec<Violation>) {
         }
         let mut r = Rng::new(mix(ctx.seed, 0xC11_B000 + j));
         let len = 1 + r.below(60);
-        let ops: Vec<Op> = (0..len).map(|_| random_op(&mut r)).collect();
+        let lifecycle = r.chance(0.33);
+        let ops: Vec<Op> = (0..len)
+            .map(|_| {
+                if lifecycle && r.chance(0.2) {
+                    match r.below(6) {
+                        0 | 1 => Op::Snapshot,
+                        2 => Op::Restore,
+                        3 => Op::CloneSelf,
+                        4 => Op::Clear,
+                        _ => Op::Reserve { n: r.below(300) },
+                    }
+                } else {
+                    random_op(&mut r)
+                }
+            })
+            .collect();
         let case = SeqCase {
             part: "B".into(),
             sink: if r.chance(0.5) { "u8" } else { "u64" }.into(),
@@ -730,6 +810,11 @@ fn op_name(op: &Op) -> &'static str {
         Op::Zeros { .. } => "write_zeros",
         Op::Align => "align_to_byte",
         Op::Bytes { .. } => "write_bytes_aligned",
+        Op::Snapshot => "clone",
+        Op::Restore => "clone_from",
+        Op::CloneSelf => "continue_on_clone",
+        Op::Clear => "clear",
+        Op::Reserve { .. } => "reserve",
     }
 }
 
